@@ -120,6 +120,44 @@ func structNameKeyLists(s *Schema) []string {
 	return out
 }
 
+// sameNamedEnumTypedefs: typedef names that two modules define with an enumerated resolved type
+// (independent recount of typedef-enum-same-name on goyang's resolved types).
+func sameNamedEnumTypedefs(s *Schema) []string {
+	ms := yang.NewModules()
+	for _, n := range s.fileNames() {
+		if err := ms.Parse(s.Files[n], n); err != nil {
+			return nil
+		}
+	}
+	if errs := ms.Process(); len(errs) > 0 {
+		return nil
+	}
+	count := map[string]int{}
+	seen := map[string]bool{}
+	for _, m := range ms.Modules {
+		if seen[m.Name] {
+			continue
+		}
+		seen[m.Name] = true
+		for _, td := range m.Typedef {
+			if td.YangType == nil {
+				panic("goyang left typedef " + td.Name + " unresolved")
+			}
+			if k := td.YangType.Kind; k == yang.Yenum || k == yang.Yidentityref {
+				count[td.Name]++
+			}
+		}
+	}
+	var out []string
+	for n, c := range count {
+		if c > 1 {
+			out = append(out, n)
+		}
+	}
+	sort.Strings(out)
+	return out
+}
+
 func TestKeyMisorder(t *testing.T) {
 	for _, c := range []struct {
 		names, keys []string
@@ -176,7 +214,7 @@ func TestYanggenSelf(t *testing.T) {
 		{}, {Hostile: true}, {OpenConfigStyle: true}, {OpenConfigStyle: true, Hostile: true},
 		{Small: true, MaxModules: 1}, {Small: true, OpenConfigStyle: true, MaxModules: 2},
 		{Hostile: true, Excluded: map[string]bool{ClEnumUNSET: true, ClKeyKey: true, ClKeyOrder: true, ClIdentSameName: true}},
-		{Hostile: true, OpenConfigStyle: true, Excluded: map[string]bool{ClKeyKey: true, ClKeyOrder: true, ClKeyStructName: true, ClTopHelper: true}},
+		{Hostile: true, OpenConfigStyle: true, Excluded: map[string]bool{ClKeyKey: true, ClKeyOrder: true, ClKeyStructName: true, ClTopHelper: true, ClTypedefSameName: true}},
 	}
 	rapid.Check(t, func(rt *rapid.T) {
 		o := modes[rapid.IntRange(0, len(modes)-1).Draw(rt, "mode")]
@@ -204,6 +242,9 @@ func TestYanggenSelf(t *testing.T) {
 		// was drawn (the converse fails for lists inside groupings that are never used)
 		if mis := misorderedLists(s); len(mis) > 0 && s.Features["collision:"+ClKeyOrder] == 0 {
 			rt.Fatalf("class %s: label count %d, lists with the shape in the compiled schema: %v\n%s", ClKeyOrder, s.Features["collision:"+ClKeyOrder], mis, s.Key())
+		}
+		if tds := sameNamedEnumTypedefs(s); (len(tds) > 0) != (s.Features["collision:"+ClTypedefSameName] > 0) {
+			rt.Fatalf("class %s: label count %d, same-named enumerated typedefs in the compiled schema: %v\n%s", ClTypedefSameName, s.Features["collision:"+ClTypedefSameName], tds, s.Key())
 		}
 		if o.OpenConfigStyle {
 			for _, l := range structNameKeyLists(s) {
